@@ -85,6 +85,28 @@ def run(ctx):
     RL.check_singleton_lock(ctx, 'R1.9')
     RL.check_whole_text(ctx, 'R1.9')
     RL.check_regex_table_ownership(ctx, 'R1.6')
+    check_no_recursion(ctx)
+
+
+def check_no_recursion(ctx):
+    """`never fails` for texts of any length: the scan is a loop; a function on a call-graph cycle reachable from tokenize() needs stack
+    depth proportional to something in the text (nesting, run length) and ends in RecursionError."""
+    from ..cg import get_cg
+    cg = get_cg(ctx)
+    ctx.rule('R1.13', 'no function reachable from lexer.tokenize is recursive (stack depth independent of the text)', floor=1)
+    entry = 'sqlparse.lexer.tokenize'
+    ctx.need(entry in cg.edges, 'lexer.tokenize not in the call graph')
+    reach = cg.reachable([entry])
+    ctx.need(len(reach) >= 5, f'only {len(reach)} functions reachable from lexer.tokenize')
+    rec = sorted(cg.recursive_functions() & set(reach))
+    for q in rec:
+        f = ctx.repo.funcs.get(q)
+        path = cg.path(entry, [q]) or [entry, q]
+        ctx.ob('R1.13', f'recursive:{q.replace("sqlparse.", "")}', f'{f.mod.relpath}:{f.node.lineno}' if f is not None else 'sqlparse/lexer.py',
+               f'{q} is not on a call-graph cycle', False,
+               f'{q.replace("sqlparse.", "")} calls itself (call path {" -> ".join(x.replace("sqlparse.", "") for x in path)}): the stack depth grows with the text '
+               'and tokenizing a long enough input raises RecursionError')
+    ctx.ob('R1.13', 'inventory', 'sqlparse/lexer.py', f'{len(reach)} functions reachable from lexer.tokenize, {len(rec)} of them recursive', True)
 
 
 def shortest_match(pattern):
